@@ -134,3 +134,66 @@ theorem parallel_eq_interleave (t : List α) : ∀ (pos : Nat) (rws : List (Rng 
   | cons p rest ih =>
     obtain ⟨r, new⟩ := p
     simp [parallelFrom, untouchedSegments, interleave, ih]
+
+/-! ## text outside every rewritten range survives verbatim -/
+
+/-- `s` occurs in `l` -/
+def Occurs (s l : List α) : Prop := ∃ pre post, l = pre ++ s ++ post
+
+theorem occurs_append_left {s l : List α} (m : List α) (h : Occurs s l) : Occurs s (l ++ m) := by
+  obtain ⟨pre, post, rfl⟩ := h
+  exact ⟨pre, post ++ m, by simp [List.append_assoc]⟩
+
+theorem occurs_append_right {s l : List α} (m : List α) (h : Occurs s l) : Occurs s (m ++ l) := by
+  obtain ⟨pre, post, rfl⟩ := h
+  exact ⟨m ++ pre, post, by simp [List.append_assoc]⟩
+
+/-- the slice `[a, b)` of `t` occurs in `(t.drop pos).take (k - pos)` when `pos ≤ a ≤ b ≤ k ≤ |t|` -/
+theorem slice_occurs_in_segment (t : List α) (pos k a b : Nat) (h1 : pos ≤ a) (h2 : a ≤ b) (h3 : b ≤ k)
+    (h4 : k ≤ t.length) : Occurs ((t.drop a).take (b - a)) ((t.drop pos).take (k - pos)) := by
+  refine ⟨(t.drop pos).take (a - pos), ((t.drop b).take (k - b)), ?_⟩
+  have e1 : (t.drop pos).take (k - pos) =
+      (t.drop pos).take (a - pos) ++ ((t.drop pos).drop (a - pos)).take (k - pos - (a - pos)) := by
+    have hk : k - pos = (a - pos) + (k - pos - (a - pos)) := by omega
+    calc (t.drop pos).take (k - pos)
+        = (t.drop pos).take ((a - pos) + (k - pos - (a - pos))) := by rw [← hk]
+      _ = _ := by rw [List.take_add]
+  rw [e1, List.drop_drop]
+  have ha : pos + (a - pos) = a := by omega
+  rw [ha]
+  have e2 : (t.drop a).take (k - pos - (a - pos)) =
+      (t.drop a).take (b - a) ++ ((t.drop a).drop (b - a)).take (k - pos - (a - pos) - (b - a)) := by
+    have hk : k - pos - (a - pos) = (b - a) + (k - pos - (a - pos) - (b - a)) := by omega
+    calc (t.drop a).take (k - pos - (a - pos))
+        = (t.drop a).take ((b - a) + (k - pos - (a - pos) - (b - a))) := by rw [← hk]
+      _ = _ := by rw [List.take_add]
+  rw [e2, List.drop_drop]
+  have hb : a + (b - a) = b := by omega
+  have hkb : k - pos - (a - pos) - (b - a) = k - b := by omega
+  rw [hb, hkb, List.append_assoc]
+
+/-- **Untouched text is carried over verbatim**: a source slice `[a, b)` that overlaps no rewritten range
+occurs in the simultaneous substitution. -/
+theorem parallel_untouched (t : List α) : ∀ (rws : List (Rng × List α)) (pos a b : Nat),
+    Chain t.length pos rws → pos ≤ a → a ≤ b → b ≤ t.length →
+    (∀ p ∈ rws, p.1.e ≤ a ∨ b ≤ p.1.s) →
+    Occurs ((t.drop a).take (b - a)) (parallelFrom t pos rws) := by
+  intro rws
+  induction rws with
+  | nil =>
+    intro pos a b _ h1 h2 h3 _
+    have := slice_occurs_in_segment t pos t.length a b h1 h2 h3 (Nat.le_refl _)
+    simpa [parallelFrom, List.take_of_length_le] using this
+  | cons p rest ih =>
+    intro pos a b hc h1 h2 h3 hno
+    obtain ⟨r, new⟩ := p
+    simp only [Chain] at hc
+    simp only [parallelFrom]
+    rcases hno (r, new) (by simp) with h | h
+    · -- the slice lies after this rewrite
+      apply occurs_append_right
+      exact ih r.e a b hc.2.2.2 h h2 h3 (fun q hq => hno q (by simp [hq]))
+    · -- the slice lies in the copied segment before this rewrite
+      rw [List.append_assoc]
+      apply occurs_append_left
+      exact slice_occurs_in_segment t pos r.s a b h1 h2 h (by omega)
